@@ -961,7 +961,10 @@ func c13TotalityCase(r *vkit.Run, g *vkit.Rand, base *c13World, fs *fileSet) {
 	}
 	wit := &c13Witness{Mode: "totality", Mut: mut, Files: texts}
 	singleErr, l := c13Exercise(r, wit, fs, base.Hosts)
+	changed := texts[file] != render(base.Files[file])
+	r.CaseS("c|"+file+"|"+texts[file], mut.Tree && changed)
 	if l == nil {
+		r.Count("c_panicked", 1)
 		return
 	}
 	if singleErr != nil {
@@ -972,8 +975,6 @@ func c13TotalityCase(r *vkit.Run, g *vkit.Rand, base *c13World, fs *fileSet) {
 	for _, op := range mut.Ops {
 		r.Count("c_op_"+op, 1)
 	}
-	changed := texts[file] != render(base.Files[file])
-	r.CaseS("c|"+file+"|"+texts[file], mut.Tree && changed)
 	if r.WantSample() && mut.Tree && changed && singleErr != nil {
 		r.Sample(map[string]interface{}{"file": file, "ops": mut.Ops, "content": truncStr(texts[file], 600), "loader_error": singleErr.Error()})
 	}
